@@ -115,9 +115,11 @@ out.append('Each change was produced by a fresh sub-agent that saw only the prop
            '`bin/trymut.sh <dir> <Cnn>` applies a change to /repo, runs the demo and the check, and reverts it.\n')
 caught = sum(1 for s in seeded if s['detection'].startswith('CAUGHT'))
 later = sum(1 for s in seeded if s['detection'].startswith('MISSED') and 'CAUGHT' in s['detection'])
-missed = len(seeded) - caught - later
+other = sum(1 for s in seeded if s['detection'].startswith('NOT CAUGHT by') and '; CAUGHT by ./vt check' in s['detection'])
+missed = len(seeded) - caught - later - other
 out.append('Totals: %d kept; %d caught by the check as it stood, %d missed at first and caught after the harness was strengthened, '
-           '%d still missed (outside the stated claim of the check; reasons in the table).\n' % (len(seeded), caught, later, missed))
+           '%d not caught by the check of the property they were written for but by the check of a neighbouring property, '
+           '%d still missed (outside the stated claim of the check; reasons in the table).\n' % (len(seeded), caught, later, other, missed))
 out.append('One further change delivered for C11 (deserialize_address cutting `address_bytes[-25:-4]`, accepting extra leading `1` '
            'characters) was MISSED by the check as it stood; building the address-level jobs for it exposed two genuine defects of '
            'the unchanged tree in the same lines (fixed 58a7674, c211cd0). With those repairs the change no longer has an effect '
@@ -129,5 +131,5 @@ out.append('')
 out.append('\n---------------------------------------------------------------------------------------------------\n')
 out.append(t2.rstrip() + '\n')
 open(os.path.join(V, 'DESIGN.md'), 'w').write('\n'.join(out))
-print('DESIGN.md written: %d lines; fixed=%d findings=%d seeded=%d (caught %d, strengthened %d, missed %d)' % (
-    sum(x.count('\n') + 1 for x in out), nfix, len(kfj['findings']), len(seeded), caught, later, missed))
+print('DESIGN.md written: %d lines; fixed=%d findings=%d seeded=%d (caught %d, strengthened %d, other-check %d, missed %d)' % (
+    sum(x.count('\n') + 1 for x in out), nfix, len(kfj['findings']), len(seeded), caught, later, other, missed))
